@@ -626,9 +626,16 @@ func (sw *SessionWindow) SetCallback(callback func([]types.Row)) {
 // deadlock). Returns true if the event was absorbed into a triggered session.
 func (sw *SessionWindow) handleLateData(row types.Row) bool {
 	key := extractSessionCompositeKey(row.Data, sw.config.GroupByKeys)
+	var wmNow time.Time
+	if sw.watermark != nil {
+		wmNow = sw.watermark.GetCurrentWatermark()
+	}
 	for mapKey, info := range sw.triggeredSessions {
-		// only a session of the row's own key may absorb it
-		if sessionMapKeyOwner(mapKey) == key && info.session.slot.Contains(row.Timestamp) {
+		// only a session of the row's own key may absorb it, and only while its
+		// allowance has not expired by the current watermark (the trigger goroutine
+		// reaps expired entries only when a watermark is delivered)
+		if sessionMapKeyOwner(mapKey) == key && info.session.slot.Contains(row.Timestamp) &&
+			wmNow.Before(info.closeTime) {
 			// Append the late event before re-emitting so the update includes it.
 			info.session.data = append(info.session.data, row)
 			sw.triggerLateUpdateLocked(info.session)
